@@ -48,6 +48,9 @@ def run_extract():
         # extracted): the previous Funcs.lean / MatrixGo.lean stay in place so that everything else still builds, and the
         # rejection is a broken obligation of exactly the properties whose theorems rest on the regenerated functions
         TRANSLATOR_PROBLEM = "translator: " + out.strip()[-600:]
+        global GEN_FUNC_MODULES
+        # which regenerated file lost a function: ApiGo.lean (shardSize / checkShards / Split sizes) or Funcs / MatrixGo
+        GEN_FUNC_MODULES = ("RSV.Gen.ApiGo",) if "ApiGo" in out else ("RSV.Gen.Funcs", "RSV.Gen.MatrixGo")
     elif rc != 0:
         shutil.rmtree(tmp, ignore_errors=True)
         return False, out
